@@ -712,6 +712,13 @@ def big_scenarios(rng, p):
         sc["conc"] = conc
         sc["delayus"] = {"%d:%d" % (u["id"], i): us for i in range(u["len"])}
         out.append(sc)
+    # one worker, held inside the first element while the context is cancelled: the directive must still
+    # return promptly, however many elements are waiting to be enqueued or run (C09)
+    sc = gen_scenario(rng, p, "ok")
+    sc["conc"] = 1
+    sc["delayus"] = {}
+    sc["hold"] = "%d:%d" % (u["id"], 0)
+    out.append(sc)
     sc = gen_scenario(rng, p, "ok")
     sc["conc"] = 4
     sc["out"] = {"%d:%d" % (u["id"], u["len"] - 3): "err"}
@@ -764,7 +771,7 @@ def gen_scenario(rng, p, mode="mixed"):
         elif dmode == "mixed":
             delay[k] = rng.choice([0, 0, 20, 300, 1200])
     sc = dict(out=out, panick=pk, delayus=delay, conc=rng.choice([1, 1, 2, 2, 3, 8]), coe=rng.random() < 0.5,
-              cancel="none", cancelu="", cancelus=0, hold="", effconc=0, effcoe=False)
+              cancel="none", cancelu="", cancelus=0, hold="", barrier=False, effconc=0, effcoe=False)
     if mode != "ok":
         c = rng.random()
         ii = insts(p)
@@ -793,6 +800,15 @@ def hold_scenarios(rng, p):
     sc["hold"] = rng.choice(cands)
     sc["delayus"] = {}
     sc["conc"] = max(sc["conc"], 2)
+    return [sc]
+
+
+def barrier_scenarios(rng, p):
+    """Capacity (C03): see h.Scen.Barrier."""
+    sc = gen_scenario(rng, p, "ok")
+    sc["barrier"] = True
+    sc["delayus"] = {}
+    sc["conc"] = rng.choice([2, 3, 4, 8])
     return [sc]
 
 
